@@ -189,6 +189,7 @@ def run_nonmarkov_sis(spec, props=("C13",)):
         out = r.out
         arrs = None if full else list(out)
         A.outcomes.add(hsh(mon.hist_of(out, nodes) if full else [a.tolist() for a in arrs]))
+        A.count["rows_checked"] = A.count.get("rows_checked", 0) + 1
         if len(recs) > len(I0):
             A.nontrivial.add(pre)
         A.states.add(hsh(log))
@@ -429,6 +430,7 @@ def run_fast_sis(spec, props=("C02",)):
         out = r.out
         arrs = None if full else list(out)
         A.outcomes.add(hsh(mon.hist_of(out, nodes) if full else [a.tolist() for a in arrs]))
+        A.count["rows_checked"] = A.count.get("rows_checked", 0) + 1
         if "C02" in props:
             errs, events, anch = monitor_fast_sis(r.log, G, tau, gamma, wE, wN, I0, tmin, tmax)
             for (tidx, pair, A_) in anch:
